@@ -119,7 +119,9 @@ def run(ctx, ck):
     # the list itself)
     from ..symx import SymExec
     ad = m.func('pulse.Pulse_Container.add')
-    apaths = [p_ for p_ in SymExec(ctx, ad, effects=True, depth=2).run() if p_.end != 'raise']
+    # (small properties such as `next_idx` are read as their expression; the counter itself stays a name)
+    apaths = [p_ for p_ in SymExec(ctx, ad, effects=True, depth=2, props=True,
+                                   no_expand=('pulse.Pulse_Container.pulse_idx',)).run() if p_.end != 'raise']
     prop = m.resolve_method('Pulse_Container', 'pulse_idx')
     counter_is_len = prop is not None and prop.kind == 'property' and \
         [norm(s_) for s_ in prop.body()] == ['return len(self.pulses)']
